@@ -8,6 +8,9 @@ namespace CohdlVerif.C01
 def InR (s : CSt) (O : List Nat) (s' : CSt) (o : Nat) : Prop :=
   (o ∈ O ∨ (s.next ≤ o ∧ o < s'.next)) ∧ (s'.root o ∈ O.map s.root ∨ (s.next ≤ s'.root o ∧ s'.root o < s'.next))
 
+/-- every front transition targets an existing state -/
+def TOK (s : CSt) : Prop := 0 < s.states.length ∧ ∀ b t, t ∈ (s.heap b).front → t < s.states.length
+
 /-- structural summary of a piece of compilation from `(s, O)` to `(s', O')` -/
 structure Step (s : CSt) (O : List Nat) (s' : CSt) (O' : List Nat) : Prop where
   next_le : s.next ≤ s'.next
@@ -22,6 +25,7 @@ structure Step (s : CSt) (O : List Nat) (s' : CSt) (O' : List Nat) : Prop where
   brk_r : ∃ d, s'.brk = s.brk ++ d ∧ ∀ o ∈ d, InR s O s' o
   cont_r : ∃ d, s'.cont = s.cont ++ d ∧ ∀ o ∈ d, InR s O s' o
   ret_r : ∃ d, s'.ret = s.ret ++ d ∧ ∀ o ∈ d, InR s O s' o
+  tgt : TOK s → TOK s'
 
 theorem Step.refl (s : CSt) (O : List Nat) : Step s O s O where
   next_le := Nat.le_refl _
@@ -36,6 +40,7 @@ theorem Step.refl (s : CSt) (O : List Nat) : Step s O s O where
   brk_r := ⟨[], by simp, by simp⟩
   cont_r := ⟨[], by simp, by simp⟩
   ret_r := ⟨[], by simp, by simp⟩
+  tgt := fun h => h
 
 /-- blocks in range of the second step are in range of the composed step -/
 theorem InR.trans {s s1 s' : CSt} {O O1 : List Nat} (h1 : Step s O s1 O1) (hn : s1.next ≤ s'.next) {o : Nat} (h : InR s1 O1 s' o) : InR s O s' o := by
@@ -116,7 +121,7 @@ theorem Step.trans {s s1 s' : CSt} {O O1 O' : List Nat} (hlt : ∀ o ∈ O, o < 
     rcases List.mem_append.mp ho with h | h
     · exact InR.mono h2.next_le h2.root_stable hlt h1.next_le (r1 o h)
     · exact InR.trans h1 h2.next_le (r2 o h)
-
+  tgt := fun h => h2.tgt (h1.tgt h)
 
 /-- only the heap changes, only at blocks of `O`, only by appending items / inserting front transitions -/
 structure HeapExt (s s' : CSt) (O : List Nat) : Prop where
@@ -130,18 +135,20 @@ structure HeapExt (s s' : CSt) (O : List Nat) : Prop where
   frame : ∀ x, x ∉ O → s'.heap x = s.heap x
   items_mono : ∀ x, (s.heap x).items <+: (s'.heap x).items
   front_mono : ∀ x, (s.heap x).front <:+ (s'.heap x).front
+  tgt : TOK s → TOK s'
 
 theorem HeapExt.refl (s : CSt) (O : List Nat) : HeapExt s s O :=
-  ⟨rfl, rfl, rfl, rfl, rfl, rfl, rfl, fun _ _ => rfl, fun _ => List.prefix_refl _, fun _ => List.suffix_refl _⟩
+  ⟨rfl, rfl, rfl, rfl, rfl, rfl, rfl, fun _ _ => rfl, fun _ => List.prefix_refl _, fun _ => List.suffix_refl _, fun h => h⟩
 
 theorem HeapExt.trans {s s1 s2 : CSt} {O : List Nat} (h1 : HeapExt s s1 O) (h2 : HeapExt s1 s2 O) : HeapExt s s2 O :=
   ⟨h2.next_eq.trans h1.next_eq, h2.root_eq.trans h1.root_eq, h2.states_eq.trans h1.states_eq,
    h2.brk_eq.trans h1.brk_eq, h2.cont_eq.trans h1.cont_eq, h2.ret_eq.trans h1.ret_eq, h2.bad_eq.trans h1.bad_eq,
    fun x hx => (h2.frame x hx).trans (h1.frame x hx),
-   fun x => (h1.items_mono x).trans (h2.items_mono x), fun x => (h1.front_mono x).trans (h2.front_mono x)⟩
+   fun x => (h1.items_mono x).trans (h2.items_mono x), fun x => (h1.front_mono x).trans (h2.front_mono x),
+   fun h => h2.tgt (h1.tgt h)⟩
 
 theorem HeapExt.append (s : CSt) (O : List Nat) (b : Nat) (hb : b ∈ O) (it : Item) : HeapExt s (s.append b it) O := by
-  refine ⟨rfl, rfl, rfl, rfl, rfl, rfl, rfl, ?_, ?_, ?_⟩
+  refine ⟨rfl, rfl, rfl, rfl, rfl, rfl, rfl, ?_, ?_, ?_, ?_⟩
   · intro x hx
     have : x ≠ b := fun h => hx (h ▸ hb)
     simp [CSt.append, this]
@@ -153,9 +160,17 @@ theorem HeapExt.append (s : CSt) (O : List Nat) (b : Nat) (hb : b ∈ O) (it : I
     by_cases h : x = b
     · subst h; simp [CSt.append]
     · simp [CSt.append, h]
+  · intro ⟨h0, h⟩
+    refine ⟨h0, ?_⟩
+    intro x t ht
+    apply h x t
+    by_cases hx : x = b
+    · subst hx; simpa [CSt.append] using ht
+    · simpa [CSt.append, hx] using ht
 
-theorem HeapExt.addfront (s : CSt) (O : List Nat) (b : Nat) (hb : b ∈ O) (t : Nat) : HeapExt s (s.addfront b t) O := by
-  refine ⟨rfl, rfl, rfl, rfl, rfl, rfl, rfl, ?_, ?_, ?_⟩
+theorem HeapExt.addfront (s : CSt) (O : List Nat) (b : Nat) (hb : b ∈ O) (t : Nat)
+    (htg : 0 < s.states.length → t < s.states.length) : HeapExt s (s.addfront b t) O := by
+  refine ⟨rfl, rfl, rfl, rfl, rfl, rfl, rfl, ?_, ?_, ?_, ?_⟩
   · intro x hx
     have : x ≠ b := fun h => hx (h ▸ hb)
     simp [CSt.addfront, this]
@@ -167,6 +182,16 @@ theorem HeapExt.addfront (s : CSt) (O : List Nat) (b : Nat) (hb : b ∈ O) (t : 
     by_cases h : x = b
     · subst h; simp [CSt.addfront]
     · simp [CSt.addfront, h]
+  · intro ⟨h0, h⟩
+    refine ⟨h0, ?_⟩
+    intro x t' ht
+    by_cases hx : x = b
+    · subst hx
+      simp only [CSt.addfront, if_true, List.mem_cons] at ht
+      rcases ht with ht | ht
+      · subst ht; exact htg h0
+      · exact h x t' ht
+    · exact h x t' (by simpa [CSt.addfront, hx] using ht)
 
 theorem HeapExt.appendAll (O : List Nat) (it : Item) : ∀ (bs : List Nat) (s : CSt), (∀ b ∈ bs, b ∈ O) →
     HeapExt s (s.appendAll bs it) O := by
@@ -179,14 +204,14 @@ theorem HeapExt.appendAll (O : List Nat) (it : Item) : ∀ (bs : List Nat) (s : 
     exact (HeapExt.append s O b (h b (by simp)) it).trans (ih _ (fun x hx => h x (by simp [hx])))
 
 theorem HeapExt.addfrontAll (O : List Nat) (t : Nat) : ∀ (bs : List Nat) (s : CSt), (∀ b ∈ bs, b ∈ O) →
-    HeapExt s (s.addfrontAll bs t) O := by
+    (0 < s.states.length → t < s.states.length) → HeapExt s (s.addfrontAll bs t) O := by
   intro bs
   induction bs with
-  | nil => intro s _; exact HeapExt.refl s O
+  | nil => intro s _ _; exact HeapExt.refl s O
   | cons b bs ih =>
-    intro s h
+    intro s h htg
     simp only [CSt.addfrontAll, List.foldl_cons]
-    exact (HeapExt.addfront s O b (h b (by simp)) t).trans (ih _ (fun x hx => h x (by simp [hx])))
+    exact (HeapExt.addfront s O b (h b (by simp)) t htg).trans (ih _ (fun x hx => h x (by simp [hx])) htg)
 
 theorem HeapExt.step {s s' : CSt} {O : List Nat} (hlt : ∀ o ∈ O, o < s.next) (h : HeapExt s s' O) : Step s O s' O where
   next_le := by rw [h.next_eq]; exact Nat.le_refl _
@@ -205,6 +230,7 @@ theorem HeapExt.step {s s' : CSt} {O : List Nat} (hlt : ∀ o ∈ O, o < s.next)
   brk_r := ⟨[], by simp [h.brk_eq], by simp⟩
   cont_r := ⟨[], by simp [h.cont_eq], by simp⟩
   ret_r := ⟨[], by simp [h.ret_eq], by simp⟩
+  tgt := h.tgt
 
 
 /-- two states that differ only in the lists `brk`, `cont`, `ret` and the flag `bad` -/
@@ -224,7 +250,7 @@ theorem Step.relist {a a' b b' : CSt} {O O' : List Nat} (ha : SameCore a a') (hb
   have hb' := hb
   obtain ⟨hah, han, har, has⟩ := ha
   obtain ⟨hbh, hbn, hbr, hbs⟩ := hb
-  refine ⟨?_, ?_, ?_, ?_, ?_, ?_, ?_, ?_, ?_, ?_, ?_, ?_⟩
+  refine ⟨?_, ?_, ?_, ?_, ?_, ?_, ?_, ?_, ?_, ?_, ?_, ?_, ?_⟩
   · rw [han, hbn]; exact h.next_le
   · rw [han, hah, hbh]; exact h.frame
   · rw [han, hah, hbh]; exact h.items_mono
@@ -237,6 +263,7 @@ theorem Step.relist {a a' b b' : CSt} {O O' : List Nat} (ha : SameCore a a') (hb
   · obtain ⟨d, e, r⟩ := hbrk; exact ⟨d, e, fun o ho => InR.same ha' hb' (r o ho)⟩
   · obtain ⟨d, e, r⟩ := hcont; exact ⟨d, e, fun o ho => InR.same ha' hb' (r o ho)⟩
   · obtain ⟨d, e, r⟩ := hret; exact ⟨d, e, fun o ho => InR.same ha' hb' (r o ho)⟩
+  · simp only [TOK, hah, has, hbh, hbs]; exact h.tgt
 
 /-- the open list before may be enlarged, the open list after replaced by any list of in-range blocks -/
 theorem Step.weaken {s s' : CSt} {O1 O1' O O' : List Nat} (h : Step s O1 s' O1') (hO : ∀ o ∈ O1, o ∈ O)
@@ -248,7 +275,7 @@ theorem Step.weaken {s s' : CSt} {O1 O1' O O' : List Nat} (h : Step s O1 s' O1')
     obtain ⟨y, hy, hyr⟩ := List.mem_map.mp hm
     exact List.mem_map.mpr ⟨y, hO y hy, hyr⟩
   refine ⟨h.next_le, fun x hx hxO => h.frame x hx (fun h1 => hxO (hO x h1)), h.items_mono, h.front_mono, h.fresh,
-    h.root_stable, h.states_mono, h.states_lt, hO', ?_, ?_, ?_⟩
+    h.root_stable, h.states_mono, h.states_lt, hO', ?_, ?_, ?_, h.tgt⟩
   · obtain ⟨d, e, r⟩ := h.brk_r; exact ⟨d, e, fun o ho => inr o (r o ho)⟩
   · obtain ⟨d, e, r⟩ := h.cont_r; exact ⟨d, e, fun o ho => inr o (r o ho)⟩
   · obtain ⟨d, e, r⟩ := h.ret_r; exact ⟨d, e, fun o ho => inr o (r o ho)⟩
@@ -257,7 +284,7 @@ theorem Step.weaken {s s' : CSt} {O1 O1' O O' : List Nat} (h : Step s O1 s' O1')
 theorem Step.newBlock (s : CSt) (O : List Nat) (hlt : ∀ o ∈ O, o < s.next) (parent : Option Nat)
     (hp : ∀ p, parent = some p → p ∈ O) : Step s O (s.newBlock parent).2 (s.next :: O) := by
   refine ⟨by simp [CSt.newBlock], ?_, ?_, ?_, ?_, ?_, by simp [CSt.newBlock], ?_, ?_,
-    ⟨[], by simp [CSt.newBlock], by simp⟩, ⟨[], by simp [CSt.newBlock], by simp⟩, ⟨[], by simp [CSt.newBlock], by simp⟩⟩
+    ⟨[], by simp [CSt.newBlock], by simp⟩, ⟨[], by simp [CSt.newBlock], by simp⟩, ⟨[], by simp [CSt.newBlock], by simp⟩, ?_⟩
   · intro x hx _
     have : x ≠ s.next := by omega
     simp [CSt.newBlock, this]
@@ -287,16 +314,27 @@ theorem Step.newBlock (s : CSt) (O : List Nat) (hlt : ∀ o ∈ O, o < s.next) (
       | some p => exact Or.inl (by simpa [CSt.newBlock] using List.mem_map_of_mem (f := s.root) (hp p rfl))
     · have hne : o ≠ s.next := by have := hlt o h; omega
       exact ⟨Or.inl h, Or.inl (by simpa [CSt.newBlock, hne] using List.mem_map_of_mem (f := s.root) h)⟩
+  · intro ⟨h0, h⟩
+    refine ⟨h0, ?_⟩
+    intro x t ht
+    by_cases hx : x = s.next
+    · subst hx; simp [CSt.newBlock] at ht
+    · exact h x t (by simpa [CSt.newBlock, hx] using ht)
 
 theorem Step.addState (s : CSt) (O : List Nat) (nb : Nat) (hnb : nb < s.next) :
     Step s O { s with states := s.states ++ [nb] } O := by
   refine ⟨Nat.le_refl _, fun _ _ _ => rfl, fun _ _ => List.prefix_refl _, fun _ _ => List.suffix_refl _, fun h => h,
-    fun _ _ => rfl, List.prefix_append _ _, ?_, ?_, ⟨[], by simp, by simp⟩, ⟨[], by simp, by simp⟩, ⟨[], by simp, by simp⟩⟩
+    fun _ _ => rfl, List.prefix_append _ _, ?_, ?_, ⟨[], by simp, by simp⟩, ⟨[], by simp, by simp⟩, ⟨[], by simp, by simp⟩, ?_⟩
   · intro hs r hr
     rcases List.mem_append.mp hr with h | h
     · exact hs r h
     · simp at h; subst h; exact hnb
   · exact fun o ho => ⟨Or.inl ho, Or.inl (List.mem_map_of_mem ho)⟩
+  · intro ⟨h0, h⟩
+    refine ⟨by simp, ?_⟩
+    intro x t ht
+    have := h x t ht
+    simp only [List.length_append, List.length_cons, List.length_nil]; omega
 
 /-- `break` / `continue` / `return`: the open blocks move to one of the lists -/
 theorem Step.toLists (s s' : CSt) (O : List Nat) (hc : SameCore s s')
